@@ -5,7 +5,7 @@ from vlib import Corr, Search, Failure
 
 ID = 'C20'
 LEVEL = 'proof'
-PROPS = ['Props/C20.v', 'Findings/C20.v']
+PROPS = ['Props/C20.v']
 TRUSTED = [
     'hand-written model Model/C20Opt.v of Attribute.__get__/__set__ read/write bits, the first load of a row, '
     'Entity._construct_optimistic_criteria_, Entity._save_updated_ (UPDATE ... WHERE pk AND criteria, rowcount check) and '
@@ -29,9 +29,9 @@ ASSUMPTIONS = [
     'attributes without volatile; created objects get all attributes non-None; the other session is a raw connection that commits only while the provider\'s '
     'write lock is free (it would block otherwise); select().for_update(), db_session(optimistic=False) and two flushes in one transaction are covered by the direct test c20_forupdate.py',
 ]
-RULE = ('exhaustive per enumerated pair: unordered pairs of programs from a fixed pool of 17 short programs (quick tier: the diagonal, all pairs with the increment programs and a seed-dependent third of the others; thorough: all 153) (read/write of plain, optimistic=False, '
+RULE = ('exhaustive per enumerated pair: unordered pairs of programs from a fixed pool of 17 short programs (quick tier: the diagonal, all pairs with the increment programs and a seed-dependent fifth of the others; thorough: all 153) (read/write of plain, optimistic=False, '
         'float, float optimistic=True and volatile attributes, increments, read-own-write, NULL values) x every complete interleaving, '
-        'plus seeded triples of 2-operation programs x every interleaving; plus 12 multi-transaction session programs (explicit commit() in the middle, get_for_update, created object) x every other-session commit x every insertion position (pairs for two programs); non-trivial = an UPDATE carried at least one optimistic '
+        'plus seeded triples of 2-operation programs x every interleaving; plus 12 multi-transaction session programs (explicit commit() in the middle, get_for_update, created object) x every other-session commit x every insertion position (pairs of insertions in the deep/thorough tiers); non-trivial = an UPDATE carried at least one optimistic '
         'criterion or a session ended in OptimisticCheckError; distinct = distinct (initial row, programs, schedule)')
 
 K = 6          # attributes a b c f g v
@@ -97,7 +97,7 @@ def gen_cases(ctx, deep=False):
     for i in range(n):
         for j in range(i, n):
             # quick tier: the diagonal, every pair with the two increment programs, and a seed-dependent half of the rest
-            if not full and not (i == j or i <= 1 or (i * n + j + ctx.seed) % 3 == 0): continue
+            if not full and not (i == j or i <= 1 or (i * n + j + ctx.seed) % 5 == 0): continue
             progs = [POOL[i], POOL[j]]
             dbs = [DB_A, DB_B] if (reads_b(POOL[i]) or reads_b(POOL[j])) else [DB_A]
             for db0 in dbs:
@@ -107,7 +107,7 @@ def gen_cases(ctx, deep=False):
     triples = list(itertools.combinations_with_replacement(range(len(two)), 3))
     if not ctx.thorough:
         rng = __import__('random').Random(ctx.seed * 7919 + 20)
-        triples = [(0, 0, 0)] + rng.sample(triples, 24 if deep else 8)
+        triples = [(0, 0, 0)] + rng.sample(triples, 24 if deep else 3)
     for t in triples:
         progs = [two[x] for x in t]
         for sched in interleavings([2, 2, 2]):
@@ -357,7 +357,7 @@ LIFE_ACTS = [X(0, 70), X(1, 71), X(2, 72), X(1, None)]
 def life_cases(ctx, deep=False):
     cases, seen = [], set()
     for n, (d0, prog) in enumerate(LIFE_PROGS):
-        for m in (0, 1) + ((2,) if (ctx.thorough or deep or n == (ctx.seed % 2)) else ()):
+        for m in (0, 1) + ((2,) if (ctx.thorough or deep) else ()):
             for seq in itertools.product(range(len(LIFE_ACTS)), repeat=m):
                 for pos in itertools.combinations_with_replacement(range(len(prog) + 1), m):
                     evs, k = [], 0
@@ -474,7 +474,7 @@ MULTI_ACTS = [MX(0, 0, 70), MX(1, 0, 71), MX(1, 1, 72), MX(0, 1, None)]
 def multi_cases(ctx, deep=False):
     cases, seen = [], set()
     for n, prog in enumerate(MULTI_PROGS):
-        for m in (0, 1) + ((2,) if (ctx.thorough or deep or n == (ctx.seed % 2)) else ()):
+        for m in (0, 1) + ((2,) if (ctx.thorough or deep) else ()):
             for seq in itertools.product(range(len(MULTI_ACTS)), repeat=m):
                 for pos in itertools.combinations_with_replacement(range(len(prog) + 1), m):
                     evs, k = [], 0
